@@ -47,7 +47,8 @@ def main():
                 print(m["prop"], m["name"], "-> STALE", flush=True)
                 sh("git", "-C", WT, "checkout", "--", ".")
                 continue
-            env = dict(os.environ, VERIF_REPO=WT, VERIF_SEED=os.environ.get("VERIF_SEED", "1"))
+            env = dict(os.environ, VERIF_REPO=WT, VERIF_SEED=os.environ.get("VERIF_SEED", "1"),
+                       VERIF_SHARD_MAX_RSS_MB="3000", VERIF_SHARD_MAX_WALL_S="600")
             evid = os.path.join(ROOT, "evidence", m["prop"] + ".json")
             saved = open(evid).read() if os.path.exists(evid) else None
             r = sh(os.path.join(ROOT, "run_check.py"), m["prop"], "--tier", "quick", env=env, cwd=ROOT)
